@@ -269,3 +269,78 @@ Proof.
         (conj ExS.closed (conj (proj1 ExS.same_store_as_one_commit) (proj2 ExS.same_store_as_one_commit))))).
 Qed.
 Print Assumptions C08_two_commits_example.
+
+(* ---------------------------------------------------------------- ANY number of intermediate commits
+   (Proofs/C08_segn.v, C08_segnc.v).  finalN segs = the store after  s1 ; commit() ; ... ; sn ; commit() ;
+   closed_segs segs = no segment writes a key that a statement of an EARLIER segment reads. *)
+Require Import Verif.Proofs.C08_segn Verif.Proofs.C08_segnc.
+
+Theorem C08_closed_segs_commit_equiv : forall segs,
+  NoDup (map sid (concat segs)) -> H1 (concat segs) -> H2 (concat segs) ->
+  closed_segs segs -> seq_same_phase (concat segs) ->
+  store_eq (finalN segs) (final (concat segs)).
+Proof. exact closed_segs_commit_equiv. Qed.
+Print Assumptions C08_closed_segs_commit_equiv.
+
+(* two differently cut (and differently ordered) issues of the same statements end in the same store *)
+Theorem C08_closed_segs_two_cuttings_agree : forall segs segs',
+  NoDup (map sid (concat segs)) -> H1 (concat segs) -> H2 (concat segs) -> seq_same_phase (concat segs) ->
+  closed_segs segs -> closed_segs segs' ->
+  Permutation (concat segs) (concat segs') -> Horder (concat segs) (concat segs') ->
+  store_eq (finalN segs) (finalN segs').
+Proof. exact closed_segs_two_cuttings_agree. Qed.
+Print Assumptions C08_closed_segs_two_cuttings_agree.
+
+(* for programs made of rows of the regenerated table only distinct ids, H1 and closedness remain as hypotheses *)
+Theorem C08_table_programs_closed_segs : forall (segs : list (list (row * stmt))),
+  (forall p, In p (concat segs) -> In (fst p) rows /\ conforms (fst p) (snd p) = true) ->
+  NoDup (map sid (concat (map (map snd) segs))) -> H1 (concat (map (map snd) segs)) ->
+  closed_segs (map (map snd) segs) ->
+  store_eq (finalN (map (map snd) segs)) (final (concat (map (map snd) segs))).
+Proof. exact table_programs_closed_segs. Qed.
+Print Assumptions C08_table_programs_closed_segs.
+
+(* C04's commit applied to each of n segments runs  schedule s1 ++ ... ++ schedule sn  and ends Done *)
+Theorem C08_commit_segs_runs_all : forall paths decls,
+  (forall d, In d decls -> seg_ok paths d) ->
+  fst (commit_segs (map (acts_of paths) decls)) = Done /\
+  run_ids (snd (commit_segs (map (acts_of paths) decls))) = flat_map (fun d => sids (schedule (stmts_of d))) decls.
+Proof. exact commit_segs_runs_all. Qed.
+Print Assumptions C08_commit_segs_runs_all.
+
+(* n commits with closed cuts under the real commit model = ONE commit of any reordering in any include tree *)
+Theorem C08_commit_model_closed_segs_invariant : forall paths paths' decls decl',
+  let segs := map stmts_of decls in
+  let dl' := stmts_of decl' in
+  NoDup (map sid (concat segs)) -> Permutation (concat segs) dl' ->
+  (forall d, In d decls -> discs_nodup (acts_of paths d) = true) ->
+  discs_nodup (acts_of paths' decl') = true ->
+  Horder (concat segs) dl' -> H1 (concat segs) -> H2 (concat segs) -> closed_segs segs -> seq_same_phase (concat segs) ->
+  store_eq (exec_storeN paths decls) (exec_store paths' decl').
+Proof. exact commit_model_closed_segs_invariant. Qed.
+Print Assumptions C08_commit_model_closed_segs_invariant.
+
+(* non-vacuity: three commits, closed cuts, hypotheses hold, stores computed equal; an open cut among three differs *)
+Theorem C08_three_commits_example :
+  closed_segs SegNEx.segs3 /\ h1b (concat SegNEx.segs3) = true /\ h2b (concat SegNEx.segs3) = true /\
+  forallb (fun k => cell_eqb (finalN SegNEx.segs3 k) (final (concat SegNEx.segs3) k)) [7; 9; 11]%N = true /\
+  finalN SegNEx.segs3 9%N <> [].
+Proof. exact (conj SegNEx.three_commits_closed SegNEx.three_commits_hyps). Qed.
+Print Assumptions C08_three_commits_example.
+
+Theorem C08_three_commits_open_differs :
+  ~ closed_segs [[SegEx.rd]; [SegEx.wr]; [SegEx.other]] /\
+  finalN [[SegEx.rd]; [SegEx.wr]; [SegEx.other]] 9%N <> final [SegEx.rd; SegEx.wr; SegEx.other] 9%N.
+Proof. exact SegNEx.three_commits_open_differs. Qed.
+Print Assumptions C08_three_commits_open_differs.
+
+Theorem C08_three_commits_commit_model_example :
+  closed_segs (map stmts_of ExN.decls3) /\
+  fst (commit_segs (map (acts_of ExC.pathsA) ExN.decls3)) = Done /\
+  run_ids (snd (commit_segs (map (acts_of ExC.pathsA) ExN.decls3))) = [1; 2; 4; 3]%N /\
+  forallb (fun d => discs_nodup (acts_of ExC.pathsA d)) ExN.decls3 = true /\
+  h1b (concat (map stmts_of ExN.decls3)) = true /\ h2b (concat (map stmts_of ExN.decls3)) = true /\
+  forallb (fun k => cell_eqb (exec_storeN ExC.pathsA ExN.decls3 k) (exec_store ExC.pathsB ExC.declB k)) [1; 2; 3; 4; 5]%N = true /\
+  exec_storeN ExC.pathsA ExN.decls3 4%N <> [].
+Proof. exact (conj ExN.three_commits_closed ExN.three_commits). Qed.
+Print Assumptions C08_three_commits_commit_model_example.
